@@ -383,10 +383,14 @@ func selectNodesForGraph(nodes Nodes, dropNegative bool) *Graph {
 		if n == nil {
 			continue
 		}
-		if n.Cum == 0 && n.Flat == 0 {
-			continue
-		}
-		if dropNegative && isNegative(n) {
+		if (n.Cum == 0 && n.Flat == 0) || (dropNegative && isNegative(n)) {
+			// The node is left out of the graph: no edge may refer to it.
+			for dest := range n.Out {
+				delete(dest.In, n)
+			}
+			for src := range n.In {
+				delete(src.Out, n)
+			}
 			continue
 		}
 		gNodes = append(gNodes, n)
